@@ -112,6 +112,8 @@ def enabled_ops(lv, model):
     for x in held:
         if model["ups"][x] and kinds[x - 1] in ("sink", "map", "stream", "union", "zip", "combine_latest"):
             ops.append(("destroy", x, 0))
+        if model["ups"][x] and kinds[x - 1] != "sink":
+            ops.append(("destroy_none", x, 0))
         if not (kinds[x - 1] == "stream" and not model["ups"][x]):
             ops.append(("dropref", x, 0))
     return ops
@@ -168,6 +170,9 @@ def run_trace(name, prog, rng, nops):
                 elif kind == "destroy_from":
                     lv.node(a).destroy(streams=[lv.node(b)])
                     model["ups"][a].remove(b)
+                elif kind == "destroy_none":
+                    # an empty selection (e.g. node.destroy([u for u in node.upstreams if retired(u)]) when nothing matches)
+                    lv.node(a).destroy(streams=[] if k % 2 else ())
                 elif kind == "dropref":
                     del lv.names[a]
                     model["held"].discard(a)
